@@ -276,7 +276,10 @@ Verify ==
   /\ ph' = "done"
   /\ UNCHANGED <<plan, creds, ledger, cur, other, ghost, nAdv>>
 
-Next == Issue \/ IssueRefuse \/ IssueRaw \/ PresentCur \/ PresentOther \/ Narrow \/ Adversary \/ Verify
+\* a finished behaviour stutters explicitly, so that deadlock checking (on in every configuration) reports exactly the
+\* dead ends: states short of "done" in which no action is enabled would silently remove behaviours from the exploration
+Finished == ph = "done" /\ UNCHANGED vars
+Next == Issue \/ IssueRefuse \/ IssueRaw \/ PresentCur \/ PresentOther \/ Narrow \/ Adversary \/ Verify \/ Finished
 Spec == Init /\ [][Next]_vars
 \* history is an observation variable: pure invariant runs hide it
 ViewNoHist == <<plan, creds, ledger, cur, other, ghost, obs, nAdv, ph>>
